@@ -237,8 +237,53 @@ def main():
                 "nodes": {n: guarded(lambda: canon(g.environmentForNode(n))) for n in case["nodes"]}}
         return out
 
+    def scope_case(case):
+        """non-primitive load (replicate() -> FlowIRConcrete.instance()): resolved variables and command line per component"""
+        doc = yaml.safe_load(case["doc_yaml"])
+        out = {}
+
+        def memory():
+            c = conf.FlowIRExperimentConfiguration(
+                path=None, platform=None, variable_files=[], system_vars={}, is_instance=False, createInstanceFiles=False,
+                primitive=False, updateInstanceFiles=False, concrete=FL.FlowIRConcrete(copy.deepcopy(doc), None, {}))
+            cc = c.get_flowir_concrete(return_copy=False)
+            r = {}
+            for name in case["names"]:
+                cfgd = cc.get_component_configuration((0, name), raw=False, include_default=True)
+                r[name] = {"line": cfgd["command"]["arguments"], "prefix": cfgd["variables"].get("prefix"), "label": cfgd["variables"].get("label")}
+            return r
+
+        def instance():     # from disk, with generation of the instance files
+            counter[0] += 1
+            loc = os.path.join(root, "s%d" % counter[0])
+            os.makedirs(os.path.join(loc, "p.package", "conf"))
+            with open(os.path.join(loc, "p.package", "conf", "flowir_package.yaml"), "w") as f:
+                f.write(case["doc_yaml"])
+            try:
+                pkg = storage.ExperimentPackage.packageFromLocation(os.path.join(loc, "p.package"))
+                exp = data.Experiment.experimentFromPackage(pkg, location=loc)
+                with open(os.path.join(exp.instanceDirectory.location, "conf", "flowir_instance.yaml")) as f:
+                    stored = yaml.safe_load(f)
+                by_name = {c["name"]: c for c in stored.get("components", []) if c.get("stage", 0) == 0}
+                r = {}
+                for name in case["names"]:
+                    spec = exp.graph.nodes["stage0.%s" % name]["componentSpecification"]
+                    variables = spec.configuration["variables"]
+                    r[name] = {"line": spec.commandDetails["arguments"], "prefix": variables.get("prefix"), "label": variables.get("label"),
+                               "stored_variables": canon(by_name.get(name, {}).get("variables"))}
+                return r
+            finally:
+                shutil.rmtree(loc, ignore_errors=True)
+        out["memory"] = guarded(memory)
+        if case.get("instantiate"):
+            out["instance"] = guarded(instance)
+        return out
+
     dumps = {}
     for case in job["cases"]:
+        if case["kind"] == "scope":
+            dumps[case["id"]] = scope_case(case)
+            continue
         if case["kind"] == "envfamily":
             dumps[case["id"]] = guarded(lambda: env_case(case))
             continue
